@@ -541,6 +541,7 @@ impl<K: KeyT> std::fmt::Debug for DbgKey<K> {
     fn fmt(&self, f: &mut std::fmt::Formatter<'_>) -> std::fmt::Result {
         match K::CLASS {
             ElemClass::Zst => write!(f, "()"),
+            ElemClass::ZstDrop => write!(f, "ZstDrop"),
             _ => write!(f, "{}", self.0),
         }
     }
